@@ -758,4 +758,130 @@ theorem lexAllF_pieces (ps : List Piece) : lexChain ps = true → ∀ (sk : Bool
             rw [lexAllF_of_skip fuel hp']
             exact ih hrest sk p' fuel hlen
 
+
+/-! ## Token positions are valid (lines only grow, starting at 1) -/
+
+theorem Pos.adv_line (p : Pos) (b : UInt8) : (p.adv b).line ≥ p.line := by
+  unfold Pos.adv; split <;> simp
+
+theorem skipSpace_line (sk : Bool) : ∀ (n : Nat) (src : Bytes) (p : Pos), src.length ≤ n →
+    (skipSpace sk src p).2.line ≥ p.line := by
+  intro n
+  induction n with
+  | zero =>
+    intro src p h
+    have : src = [] := List.eq_nil_of_length_eq_zero (by omega)
+    subst this
+    rw [skipSpace_nil]
+    exact Nat.le_refl _
+  | succ n ih =>
+    intro src p h
+    cases src with
+    | nil => rw [skipSpace_nil]; exact Nat.le_refl _
+    | cons b rest =>
+      rw [skipSpace.eq_def]
+      simp only
+      split
+      · have := ih rest (p.adv b) (by simp at h; omega)
+        exact Nat.le_trans (Pos.adv_line p b) this
+      · split
+        · have := ih rest (p.adv b) (by simp at h; omega)
+          exact Nat.le_trans (Pos.adv_line p b) this
+        · split
+          · split
+            · rename_i rest' 
+              have := ih rest' ⟨p.offs + 2, p.line + 1, 1⟩ (by simp at h; omega)
+              simp only at this
+              omega
+            · exact Nat.le_refl _
+          · exact Nat.le_refl _
+
+theorem lexWord_line : ∀ (src : Bytes) (pos : Pos) (mode : LexMode) (acc : List WordPart) (res : List WordPart)
+    (stop : Pos) (r : Bytes), lexWord src pos mode acc = .done res stop r → stop.line ≥ pos.line := by
+  intro src
+  induction src with
+  | nil =>
+    intro pos mode acc res stop r h
+    cases mode <;> rw [lexWord] at h <;> first | (cases h; exact Nat.le_refl _) | cases h
+  | cons b rest ih =>
+    intro pos mode acc res stop r h
+    cases mode with
+    | idle =>
+      rw [lexWord] at h
+      split at h
+      · exact Nat.le_trans (Pos.adv_line pos b) (ih _ _ _ _ _ _ h)
+      · split at h
+        · exact Nat.le_trans (Pos.adv_line pos b) (ih _ _ _ _ _ _ h)
+        · split at h
+          · cases h; exact Nat.le_refl _
+          · cases h
+    | lit st a =>
+      rw [lexWord] at h
+      split at h
+      · exact Nat.le_trans (Pos.adv_line pos b) (ih _ _ _ _ _ _ h)
+      · split at h
+        · exact Nat.le_trans (Pos.adv_line pos b) (ih _ _ _ _ _ _ h)
+        · split at h
+          · cases h; exact Nat.le_refl _
+          · cases h
+    | sgl l a =>
+      rw [lexWord] at h
+      split at h
+      · exact Nat.le_trans (Pos.adv_line pos b) (ih _ _ _ _ _ _ h)
+      · split at h
+        · exact Nat.le_trans (Pos.adv_line pos b) (ih _ _ _ _ _ _ h)
+        · cases h
+
+
+theorem nextTok_line (sk : Bool) (src : Bytes) (spos : Pos) :
+    (nextTok sk src spos).pos.line ≥ spos.line ∧ (nextTok sk src spos).rpos.line ≥ spos.line := by
+  have hs := skipSpace_line sk src.length src spos (Nat.le_refl _)
+  unfold nextTok
+  cases hsk : skipSpace sk src spos with
+  | mk r p =>
+    rw [hsk] at hs
+    simp only at hs
+    cases r with
+    | nil => exact ⟨hs, hs⟩
+    | cons b rest =>
+      have h1 : (p.adv b).line ≥ spos.line := Nat.le_trans hs (Pos.adv_line p b)
+      have h2 : ((p.adv b).adv b).line ≥ spos.line := Nat.le_trans h1 (Pos.adv_line _ b)
+      simp only
+      repeat' split
+      all_goals first
+        | exact ⟨hs, h1⟩
+        | exact ⟨hs, h2⟩
+        | (rename_i hl; exact ⟨hs, Nat.le_trans hs (lexWord_line _ _ _ _ _ _ _ hl)⟩)
+
+theorem lexAllF_line : ∀ (fuel : Nat) (sk : Bool) (src : Bytes) (spos : Pos), ∀ tp ∈ lexAllF fuel sk src spos,
+    tp.2.line ≥ spos.line := by
+  intro fuel
+  induction fuel with
+  | zero => intro sk src spos tp h; simp [lexAllF] at h
+  | succ n ih =>
+    intro sk src spos tp h
+    obtain ⟨h1, h2⟩ := nextTok_line sk src spos
+    rw [lexAllF] at h
+    split at h
+    · simp only [List.mem_singleton] at h; subst h; exact h1
+    · simp only [List.mem_singleton] at h; subst h; exact h1
+    · simp only [List.mem_singleton] at h; subst h; exact h1
+    · simp only [List.mem_cons] at h
+      rcases h with h | h
+      · subst h; exact h1
+      · exact Nat.le_trans h2 (ih _ _ _ tp h)
+
+theorem lexAll_line (src : Bytes) : ∀ tp ∈ lexAll src, tp.2.valid = true := by
+  intro tp h
+  have := lexAllF_line _ _ _ _ tp h
+  simp only at this
+  unfold Pos.valid
+  have : tp.2.line ≠ 0 := by omega
+  simp [this]
+
+/-- Lexing the rendering of a piece list that satisfies `lexChain` (from the start of a file) -/
+theorem lexAll_pieces (ps : List Piece) (h : lexChain ps = true) :
+    toksMatch (expect false ps) (lexAll (render ps)) :=
+  lexAllF_pieces ps h false _ _ (Nat.le_refl _)
+
 end ShVerif.L4
